@@ -1234,13 +1234,17 @@ func c16CheckRef(e *qEnv, q c16Query, hdr string, label string, ref qResult) (st
 	case !arc.OK && ref.OK:
 		return "arc-fails-" + label, fmt.Sprintf("arc status=%d err=%q; reference returned %d rows", arc.Status, arc.Err, len(ref.Rows))
 	case arc.OK && !ref.OK:
-		// A sibling whose comment swallowed a table name may name something that
-		// is not a measurement (an alias): arc answers a reference to a
-		// measurement without files with an empty success by design, DuckDB
-		// reports an unknown table. Only tolerated for those derived texts.
-		if strings.HasPrefix(label, "pair-comment-nl") && len(arc.Rows) == 0 && len(arc.Cols) == 0 &&
-			strings.Contains(ref.Err, "Catalog Error: Table with name") {
-			verifkit.Class("pair:comment-nl:unknown-measurement-empty")
+		// A sibling whose comment swallowed a table name puts whatever word
+		// comes next into table position: an alias (`FROM t1`) or a keyword
+		// (`FROM AS t1`, `FROM INNER JOIN x`). Arc takes any word there for a
+		// measurement name and answers a measurement without files with an
+		// empty success (no columns) by design, where DuckDB reports an unknown
+		// table or a syntax error. That is not a stored measurement, so it is
+		// outside the property; tolerated only for these derived texts and only
+		// for the column-less "no files" answer (a cached answer of the original
+		// statement always carries its columns).
+		if strings.HasPrefix(label, "pair-comment-nl") && len(arc.Rows) == 0 && len(arc.Cols) == 0 {
+			verifkit.Class("pair:comment-nl:non-measurement-word-in-table-position")
 			return "", ""
 		}
 		return "reference-fails-" + label, fmt.Sprintf("arc returned %d rows; reference err=%q", len(arc.Rows), ref.Err)
@@ -1346,7 +1350,7 @@ func c16Siblings(sql string) map[string]string {
 			}
 			// the swallowed text must not put a quote into the comment (C15's
 			// quote-in-comment shape) and must be more than blanks
-			if !strings.ContainsAny(rest, "'\"$") && strings.TrimSpace(rest) != "" && (nl == 0 || sql[nl-1] != '\r') {
+			if !strings.ContainsAny(rest, "'\"$") && strings.TrimSpace(rest) != "" && (nl == 0 || sql[nl-1] != '\r') && !c16AfterFromJoin(sql[:i]) {
 				out["comment-nl"] = sql[:nl] + " " + sql[nl+1:]
 				break
 			}
@@ -1354,6 +1358,31 @@ func c16Siblings(sql string) map[string]string {
 		}
 	}
 	return out
+}
+
+// c16AfterFromJoin: the text ends (ignoring blanks and comments) in FROM or
+// JOIN, i.e. a comment starting here stands between the keyword and its table.
+// Swallowing the table name would put the NEXT word (an alias, AS, INNER ...)
+// into table position, where arc takes any word for a measurement name - not a
+// query over stored measurements, so such siblings are not derived.
+func c16AfterFromJoin(prev string) bool {
+	prev = strings.TrimRight(prev, " \t\r\n")
+	for {
+		if strings.HasSuffix(prev, "*/") {
+			if j := strings.LastIndex(prev, "/*"); j >= 0 {
+				prev = strings.TrimRight(prev[:j], " \t\r\n")
+				continue
+			}
+		}
+		ls := strings.LastIndexByte(prev, '\n')
+		if k := strings.Index(prev[ls+1:], "--"); k >= 0 {
+			prev = strings.TrimRight(prev[:ls+1+k], " \t\r\n")
+			continue
+		}
+		break
+	}
+	low := strings.ToLower(prev)
+	return strings.HasSuffix(low, "from") || strings.HasSuffix(low, "join") || strings.HasSuffix(low, "lateral")
 }
 
 // c16RunPairs runs q and each whitespace sibling back to back on the same
